@@ -363,7 +363,8 @@ class Session:
         for init, inv, length in obligations:
             cmd = ["apalache-mc", "check", "--init=" + init, "--inv=" + inv, "--length=%d" % length, "--out-dir=" + os.path.join(d, "_apalache"), module + ".tla"]
             try:
-                p = subprocess.run(cmd, cwd=d, stdout=subprocess.PIPE, stderr=subprocess.STDOUT, timeout=timeout)
+                # (the launcher makes its java.io.tmpdir with `mktemp -t`: keep it inside the scratch directory, not in /tmp)
+                p = subprocess.run(cmd, cwd=d, stdout=subprocess.PIPE, stderr=subprocess.STDOUT, timeout=timeout, env=dict(os.environ, TMPDIR=self.scratch))
             except (subprocess.TimeoutExpired, FileNotFoundError):
                 self.notes.append("apalache: %s %s=>%s not decided (timeout / not available)" % (module, init, inv))
                 continue
